@@ -64,6 +64,8 @@ for s in sites:
         e=D("C01_split_string_never_panics","Model.Pipeline.split_string mirrors the loop (fix c447a1c) with split_at and the usize decrement as Panic sites; for every valid UTF-8 string neither fires and the fuel suffices")
     elif f.endswith("control_flow_graph/cfg.rs") and fn=="start_after":
         e=G("default budget","verification hook in `#[cfg(circomspect_verif)] mod verif_budget`: not part of the shipped binary (the checks build with that cfg). The `expect` is evaluated only when `exhausted(..)` holds, i.e. after a harness lowered a pass budget (default usize::MAX, which `passes_done` cannot reach); `Instant::checked_sub(11 s)` then fails only on a machine whose monotonic clock is younger than 11 s",guard_text="if exhausted(budget, passes_done) {",guard_in={"file":f,"text":"pub(super) static VALUE_PASSES: AtomicUsize = AtomicUsize::new(usize::MAX);"})
+    elif f.endswith("control_flow_graph/cfg.rs") and fn.endswith("merge_control") and "current_index" in t:
+        e=D("C12_preds_succs_mirror C15_idom_exact","added by the completion of the D18 repair (/repo 64f724b): `current_index` is a member of the predecessor set of a block (every member of a predecessor set names an existing block: C12_preds_succs_mirror, on the graph as lifted; SSA conversion keeps the block vector and its edges) or `block.index()` of the block Cfg::get_immediate_dominator returned, i.e. of `&self.basic_blocks[i]` for the immediate dominator i (a node of the graph: C15_idom_exact; BasicBlock::index is the position, C12). Model.Propagate.cond_at totalises this lookup (an index out of range gives no condition), so the site is not a Panic site of that mirror; the walk up the dominator tree ends at the immediate dominator of the join or at the entry block (the mirror bounds it by the number of blocks)")
     elif f.endswith("control_flow_graph/cfg.rs") and fn.endswith("merge_control"):
         e=G("loop index of the only caller","added by the repair of D18 (/repo e096e8a). `Cfg::merge_control` is a private method (`fn`, not `pub`; the `merge_control()` called in expression_impl.rs is the getter of DegreeEnvironment, another type); its only call is inside `for index in 0..self.basic_blocks.len()` of propagate_degrees, so the index is in range (the loop body does not change the length of the block vector: Model.Propagate.pd_blocks / block_ctl go over the same list)",guard_in={"file":f,"text":"for index in 0..self.basic_blocks.len() { env.set_merge_control(self.merge_control(index));"})
     elif f.endswith("control_flow_graph/cfg.rs") and fn.endswith("propagate_degrees") and k=="index":
@@ -137,5 +139,23 @@ for s in sites:
         e=X("fails only when stdout cannot be written (closed pipe, full disk): run-time environment, DESIGN §5.3; termcolor/codespan internals are observed only")
     assert e is not None, s["key"]
     M[s["key"]]=e
+# second audit: the sites that the content-carrying lifting mirror Model.LiftFull has (renaming on the real tree, lifting,
+# IR lifting, declarations) are discharged by its totality theorems, merged into props/C01.v
+LF="C01_liftfull_never_panics C01_lift_to_ir_never_panics"
+for k,v in M.items():
+    if "control_flow_graph/lifting.rs::" in k and "discharged_by" in v:
+        v["discharged_by"]=LF+" "+v["discharged_by"]
+        v["why"]="Model.LiftFull (content-carrying mirror of try_lift_impl, compared with the real into_cfg on every run) reaches this site exactly when Model.Lift does (lock-step relation of Proofs.LiftFullTotal); "+v["why"]
+    elif "unique_vars.rs::ensure_unique_variables::assert" in k:
+        M[k]=D(LF+" C01_desugar_output_has_desugared_shape","site 3184 of Model.LiftFull.ensure_unique_variables; definition_wf asks the body to be a block, which C01_desugar_output_has_desugared_shape proves of every body the desugarer hands on (templates) and the ParseBlock production of lang.lalrpop builds for every definition (functions: function_ok of C01_pipeline_mirrors_never_panic, evaluated per definition by the chain stage)")
+    elif "declarations.rs::Declarations::add_declaration::assert" in k:
+        v["discharged_by"]=LF+" "+v["discharged_by"]
+        v["why"]="site 2017 of Model.LiftFull.decls_add: excluded by the clause names_distinct of definition_wf (the keys after the renaming mirror are pairwise different: evaluated on every explored definition by the chain stage of ./check C01 and the liftfull stage of ./check C13); for C10's own mirror of the renaming pass: "+v["why"]
+    elif "intermediate_representation/lifting.rs::ast::" in k and "panic!" in k:
+        v["discharged_by"]=LF+" C01_sugar_free_spec_is_wf_clause "+v["discharged_by"]
+        v["why"]="sites 1119 / 1193 of Model.LiftFull.lift_stmt / lift_expr (every TryLift impl mirrored, catch-all arms included): not reached on a body that meets stmt_sugar_free, which C18's sugar-freeness implies (C01_sugar_free_spec_is_wf_clause); "+v["why"]
+    elif "environment.rs::RawEnvironment::add_variable::" in k or "environment.rs::RawEnvironment::remove_variable_block::assert" in k:
+        v["discharged_by"]=LF+" "+v["discharged_by"]
+        v["why"]="sites 4001 / 4002 of Model.LiftFull (VarEnvironment asserts of the renaming pass on the real syntax tree): the three environments keep their depths (Proofs.LiftFullTotal.ren_total_all); "+v["why"]
 json.dump(M,open("/verif/coq/PANIC_MAP.json","w"),indent=1,ensure_ascii=False,sort_keys=True)
 print(len(M))
